@@ -294,7 +294,7 @@ fn check_rotator(rng: &mut Rng, iters: u64) -> Option<Found> {
 pub fn search(_pid: &str, oid: &str, seed: u64) -> Option<Found> {
     let mut rng = Rng::new(seed + 10);
     let f = oid.split('/').nth(1).unwrap_or("");
-    if f.starts_with("WalRotator") { if let Some(x) = check_rotator(&mut rng, 300) { return Some(x); } }
+    if f.starts_with("WalRotator") || oid.starts_with("wal_files/") { if let Some(x) = check_rotator(&mut rng, 300) { return Some(x); } }
     if f.starts_with("WalReader") { if let Some(x) = check_reader(&mut rng, 600) { return Some(x); } }
     if let Some(x) = check_roundtrip(&mut rng, 400) { return Some(x); }
     if let Some(x) = check_damage(&mut rng, 40) { return Some(x); }
